@@ -5,7 +5,7 @@ from __future__ import annotations
 import ast
 import re
 
-from ..astutil import inline, returns, single_defs, unparse
+from ..astutil import const, inline, returns, single_defs, unparse
 from ..defined import Definedness
 from ..index import AnalysisError, Class, Func, dotted, own_nodes
 from ..matexpr import fmt, is_adjoint_of, product
@@ -657,20 +657,33 @@ def _check_dict_paths(ctx, rep):
             rep.violation("R7", lay["func"], con, "%s is keyed by %s indices, a %s conversion looks it up by %s indices" % (field, lay["key"], direction, want_key),
                           node=lay["node"])
             continue
-        loops = [n for n in own_nodes(f.node) if isinstance(n, ast.For) and isinstance(n.target, ast.Tuple) and len(n.target.elts) == 2
+        loops = [n for n in own_nodes(f.node) if isinstance(n, ast.For) and ((isinstance(n.target, ast.Tuple) and len(n.target.elts) == 2)
+                                                                              or isinstance(n.target, ast.Name))
                  and isinstance(n.iter, ast.Call) and (dotted(n.iter.func) or "").endswith("product")]
         if len(loops) != 1:
             rep.undecided("R7", f, con, "expected one product loop")
             continue
         lp = loops[0]
-        k1, k2 = [x.id for x in lp.target.elts]
+        pair_name = None
+        if isinstance(lp.target, ast.Name):
+            # `for idx in product(r, repeat=2)`: the pair is used as a whole (d.get(idx), m[idx]); its components are idx[0], idx[1]
+            it_ = lp.iter
+            two = (len(it_.args) == 2 and not it_.keywords) or (len(it_.args) == 1 and len(it_.keywords) == 1 and it_.keywords[0].arg == "repeat"
+                                                                and const(it_.keywords[0].value) == 2)
+            if not two:
+                rep.undecided("R7", f, con, "the product loop does not range over pairs")
+                continue
+            pair_name = lp.target.id
+            k1, k2 = pair_name + "[0]", pair_name + "[1]"
+        else:
+            k1, k2 = [x.id for x in lp.target.elts]
         get = [st for st in lp.body if isinstance(st, ast.Assign) and isinstance(st.value, ast.Call) and isinstance(st.value.func, ast.Attribute)
-               and st.value.func.attr == "get" and unparse(st.value.func.value).endswith("." + field[1:])]
+               and st.value.func.attr == "get" and unparse(inline(f, st.value.func.value)).endswith("." + field[1:])]
         inner = [n for n in lp.body if isinstance(n, ast.For) and isinstance(n.target, ast.Tuple) and len(n.target.elts) == 3]
 
         def is_get(e):
             return isinstance(e, ast.Call) and isinstance(e.func, ast.Attribute) and e.func.attr == "get" and e.args \
-                and unparse(e.func.value).endswith("." + field[1:])
+                and unparse(inline(f, e.func.value)).endswith("." + field[1:])
         # the looked-up list is bound to a local first, or iterated in place (the canonical form of a single-use local)
         if len(get) == 1 and len(inner) == 1 and unparse(inner[0].iter) == unparse(get[0].targets[0]):
             getcall = get[0].value
@@ -680,6 +693,8 @@ def _check_dict_paths(ctx, rep):
             rep.undecided("R7", f, con, "expected `nz = c_sys.%s.get((x, y), [])` and one loop `for u, v, coefficient in nz`" % field[1:])
             continue
         key = getcall.args[0]
+        if pair_name is not None and isinstance(key, ast.Name) and key.id == pair_name:
+            key = ast.Tuple(elts=[ast.parse(k1, mode="eval").body, ast.parse(k2, mode="eval").body], ctx=ast.Load())
         if not (isinstance(key, ast.Tuple) and [unparse(x) for x in key.elts] in ([k1, k2], [k2, k1])):
             rep.undecided("R7", f, con, "lookup key %s is not the pair of loop variables" % unparse(key))
             continue
@@ -691,6 +706,8 @@ def _check_dict_paths(ctx, rep):
             continue
         st = acc[0]
         tgt_idx = [unparse(x) for x in st.target.slice.elts] if isinstance(st.target.slice, ast.Tuple) else None
+        if tgt_idx is None and pair_name is not None and isinstance(st.target.slice, ast.Name) and st.target.slice.id == pair_name:
+            tgt_idx = [k1, k2]
         # factors of the summand
         facs = _scalar_factors_c02(st.value)
         coef_conj, src_idx, other = False, None, []
